@@ -63,10 +63,19 @@ def run(ctx):
     for (b, s, fm, line) in edge_forms(fn):
         r, k, rel, bad = fm.roles(role)
         if not bad and set(r) == {"to", "from"} and rel == "<=" and (s in error_blocks(fn) or _leads_to_error_only(fn, s)):
-            g = (b, r, k, fm, line)
+            if g is None or (r == {"from": 1, "to": -1} and k == 6):
+                g = (b, r, k, fm, line)
     R.ob(g is not None and g[1] == {"from": 1, "to": -1} and g[2] == 6, "GUARD", fn.where(), "GUARD|get_logs|range",
          "range refusal is `%s`; expected `to - from > 5 => Err`" % (g[3].text(role) if g else "absent"),
          sample={"rule": "GUARD", "fn": "get_logs", "error_edge": g[3].text(role) if g else None})
+    # "for any block range of at most 6 blocks ...": the range test is get_logs' only refusal of its own
+    def only_range_operands(dd):
+        # a comparison of the two range bounds (e.g. an explicit `from > to`) is part of the range contract, judged by the form above
+        return mentions(dd, "block_number_from") and mentions(dd, "block_number_to")
+    for (ln, cond) in T.unexpected_refusals(fn, known_blocks={g[0]} if g else (), allow=only_range_operands):
+        R.violation("GUARD", "%s:%s" % (fn.loc["f"], ln), "GUARD|get_logs|unexpected-refusal",
+                    "get_logs refuses on a condition the contract does not give (`%s`): every range of at most 6 blocks is answered" % cond)
+    R.ok(1, sample={"rule": "GUARD", "fn": "get_logs", "own_refusals": "range test only"})
     if g and scans:
         R.ob(fn.dominates(g[0], scans[0].bb), "DOM-before", scans[0].where(), "DOM-before|get_logs|range<scan",
              "the range check does not dominate the scan", sample={"rule": "DOM-before", "a": "range check", "b": "get_range"})
